@@ -5,6 +5,8 @@ Imports the model only (core Lean), so it links as a `lean_exe`.
 import HpxVerif.Model.Bits
 import HpxVerif.Model.Bmoc
 import HpxVerif.Model.Layer
+import HpxVerif.Model.Topo
+import HpxVerif.Gen.Consts
 
 namespace Hpx.Driver
 
@@ -105,6 +107,53 @@ def viewsOp (toks : List Nat) : String :=
       else " flat=skipped cells=skipped"
     s!"deep={deep} ranges={ranges} iter={it}{tail}"
 
+def listLine (l : List Nat) : String :=
+  if l.isEmpty then "-" else " ".intercalate (l.map toString)
+
+def optListLine : Option (List Nat) → String
+  | some l => listLine l
+  | none => "panic"
+
+def mapLine (l : List (MW × Nat)) : String :=
+  if l.isEmpty then "-" else l.foldl (fun acc e => acc ++ s!"{e.1.index}:{e.2},") ""
+
+def topoOp (st : St) (op : String) (a : List Nat) : String :=
+  let cfg := st.cfg
+  match op, a with
+  | "neigh", [d, h, inc] => match Topo.neighbours cfg d h (inc == 1) with | some l => mapLine l | none => "panic"
+  | "neighbour", [d, h, k] =>
+    match MW.ofIndex k with
+    | none => "bad-op"
+    | some w => match Topo.neighbour cfg d h w with | none => "panic" | some none => "none" | some (some x) => toString x
+  | "iedge", [h, dd] => optListLine (Topo.internalEdge cfg h dd)
+  | "iedge_top", [d, h, dd] =>
+    -- `assert!(depth + delta_depth < DEPTH_MAX)` in u8 arithmetic
+    optListLine (Topo.internalEdgeTop cfg Gen.cDepthMax d h dd)
+  | "iedges", [h, dd] => optListLine (Topo.internalEdgeSorted cfg h dd)
+  | "iedges_top", [d, h, dd] =>
+    optListLine (Topo.internalEdgeSortedTop cfg Gen.cDepthMax d h dd)
+  | "icorner", [h, dd, k] => match MW.ofIndex k with | some w => optNat (Topo.internalCorner cfg h dd w) | none => "bad-op"
+  | "ipart", [h, dd, k] => match MW.ofIndex k with | some w => optListLine (Topo.internalEdgePart cfg h dd w) | none => "bad-op"
+  | "eedge", [d, h, dd, s] => optListLine (Topo.externalEdge cfg d h dd (s == 1))
+  | "estruct", [d, h, dd] =>
+    match Topo.externalEdgeStruct cfg d h dd with
+    | none => "panic"
+    | some parts =>
+      let sorted := MW.all.filterMap fun w => parts.find? (·.1 == w)
+      if sorted.isEmpty then "-" else
+      " ".intercalate (sorted.map fun p => s!"{p.1.index}:[{listLine p.2}]")
+  | _, _ => "bad-op"
+
+def stepRest (st : St) (toks : List String) : St × String :=
+  match toks with
+  | ["toring", d, h] => (st, optNat (Layer.toRing st.cfg (nat! d) (nat! h)))
+  | ["fromring", d, r] => (st, optNat (Layer.fromRing st.cfg (nat! d) (nat! r)))
+  | ["touniq", d, h] => (st, optNat (toUniq (nat! d) (nat! h)))
+  | ["touniqivoa", d, h] => (st, optNat (toUniqIvoa (nat! d) (nat! h)))
+  | ["fromuniq", u] => (st, optPair (fromUniq (nat! u)))
+  | ["fromuniqivoa", u] => (st, optPair (fromUniqIvoa (nat! u)))
+  | _ => (st, "bad-op")
+
 def step (st : St) (line : String) : St × String :=
   match line.trimAscii.toString.splitOn " " with
   | ["profile", p, z] => ({ st with debug := p == "debug", bmi := z == "bmi2" }, "ok")
@@ -124,13 +173,11 @@ def step (st : St) (line : String) : St × String :=
         | some l => bmocLine { dmax := nat! nd, entries := l }
         | none => "panic"
       | none => "bad-op")
-  | ["toring", d, h] => (st, optNat (Layer.toRing st.cfg (nat! d) (nat! h)))
-  | ["fromring", d, r] => (st, optNat (Layer.fromRing st.cfg (nat! d) (nat! r)))
-  | ["touniq", d, h] => (st, optNat (toUniq (nat! d) (nat! h)))
-  | ["touniqivoa", d, h] => (st, optNat (toUniqIvoa (nat! d) (nat! h)))
-  | ["fromuniq", u] => (st, optPair (fromUniq (nat! u)))
-  | ["fromuniqivoa", u] => (st, optPair (fromUniqIvoa (nat! u)))
-  | _ => (st, "bad-op")
+  | op :: a =>
+    if ["neigh", "neighbour", "iedge", "iedge_top", "iedges", "iedges_top", "icorner", "ipart", "eedge", "estruct"].contains op then
+      (st, topoOp st op (a.map nat!))
+    else stepRest st (op :: a)
+  | [] => (st, "bad-op")
 
 partial def loop (hin : IO.FS.Stream) (hout : IO.FS.Stream) (st : St) : IO Unit := do
   let line ← hin.getLine
